@@ -8,3 +8,7 @@ import Jb.Model.Weights
 import Jb.Props.C02
 import Jb.Props.C08
 import Jb.Props.C09
+import Jb.Model.Mlpg
+import Jb.Model.Vocoder
+import Jb.Props.C19
+import Jb.Props.C10
